@@ -40,7 +40,12 @@ var NewReaderDict = flate.NewReaderDict
 func NewReader(r io.Reader) io.ReadCloser {
 	rr := &decompressor{}
 	rr.r = r
-	rr.rBuf = bufio.NewReader(r)
+	if ur, ok := r.(*bufio.Reader); ok {
+		// bufio.NewReader would put a second buffer in front of a small one
+		rr.rBuf = ur
+	} else {
+		rr.rBuf = bufio.NewReader(r)
+	}
 	return rr
 }
 
